@@ -264,6 +264,32 @@ def extra_obligations(repo, D, pid):
                     documented = a0.id in DOC_CONSTANTS
                     out.append(Ob('%s/frame[ExitInformation(%s) uses a documented exit code that message() has a stem for]' % (qual, k), 'frame', qual, ['C07'], [],
                                   z3.BoolVal(documented and a0.id in stems), n.lineno, 'unsat', {'syntactic': True, 'why': a0.id}))
+    # (f) exception frame: the only `raise` statements of the package are the documented ones - ValueError from ParameterList.__call__ (unknown parameter name /
+    #     second update) and the LinAlgError raised under the documented option interpolation.throw_error_on_nans.  Anything else reaches the caller of solve as an
+    #     exception instead of a result with an error flag.
+    for qual, f in sorted(repo.funcs.items()):
+        if f.module == 'hessian':
+            continue
+        parents = {}
+        for n in ast.walk(f.node):
+            for c in ast.iter_child_nodes(n):
+                parents[id(c)] = n
+        k = 0
+        for n in sorted([x for x in ast.walk(f.node) if isinstance(x, ast.Raise)], key=lambda x: x.lineno):
+            k += 1
+            exc = n.exc.func if isinstance(n.exc, ast.Call) else n.exc
+            ename = ast.unparse(exc) if exc is not None else '(re-raise)'
+            ok = False
+            if qual == 'ParameterList.__call__' and ename == 'ValueError':
+                ok = True
+            if ename.endswith('LinAlgError'):
+                p = parents.get(id(n))
+                while p is not None and not ok:
+                    if isinstance(p, ast.If) and 'throw_error_on_nans' in ast.unparse(p.test):
+                        ok = True
+                    p = parents.get(id(p))
+            out.append(Ob('%s/frame[raise#%d (%s) is a documented exception: ValueError from the parameter list, or LinAlgError under interpolation.throw_error_on_nans]'
+                          % (qual, k, ename), 'frame', qual, ['C07'], [], z3.BoolVal(ok), n.lineno, 'unsat', {'syntactic': True, 'why': ename}))
     # call conformance: every resolved intra-package call binds the callee's parameters (positional count / keywords), *args aside
     for qual, f in sorted(repo.funcs.items()):
         if f.module == 'hessian':
